@@ -293,9 +293,12 @@ def near_miss_script(rng, rate):
         H2 = samegen.gen_header(rng)
         return "two-different-headers", "S0.3,B%s,S1,B%s,S3" % (burst_hex(H), burst_hex(H2))
     if k == 2:
-        bad = bytearray(b"ZCZC"); 
-        for _ in range(3 + rng.below(3)):
-            i = rng.below(4); bad[i] ^= 1 << rng.below(7)
+        bad = bytearray(b"ZCZC")
+        flipped = set()
+        while len(flipped) < 3 + rng.below(3):          # DISTINCT bits (two flips of one bit would restore the prefix)
+            flipped.add((rng.below(4), rng.below(7)))
+        for i, b in flipped:
+            bad[i] ^= 1 << b
         return "prefix-3+-bit-errors", "S0.3," + ",".join("B%s,S1" % burst_hex(bytes(bad) + H[4:]) for _ in range(3)) + ",S2"
     if k == 3:
         return "preamble-only", "S0.3," + ",".join("B%s,S1" % hx(b"\xab" * rng.range(16, 60)) for _ in range(3)) + ",S2"
